@@ -9,6 +9,7 @@ CFG = dict(
         "Inst.gen_v2_ok: encode_v2 checks the uncompressed size against max_frame_length before compressing",
         "Inst.gen_v2_frame_ok: encode_v2 checks the frame content (flags + payload) against max_frame_length",
         "Inst.gen_validator_ok: EmbeddingValidator checks equal lengths, every position < dimension, strictly ascending positions",
+        "Inst.gen_block_request_ok: validate_block_request tests the range order and counts blocks with saturating (non-wrapping) u64 arithmetic",
         "Inst.gen_flags_ok: frame flag bytes and MAX_DECOMPRESSED_SIZE",
     ],
     crate="nvh_c20",
@@ -17,7 +18,7 @@ CFG = dict(
         "varint": ("varint_case", "check_varint"), "vdec": ("vdec_case", "check_vdec"),
         "delta": ("delta_case", "check_delta"), "rle": ("rle_case", "check_rle"),
         "sparse": ("sparse_case", "check_sparse"), "frame": ("frame_case", "check_frame"),
-        "split": ("split_case", "check_split"), "valid": ("valid_case", "check_valid"),
+        "split": ("split_case", "check_split"), "valid": ("valid_case", "check_valid"), "breq": ("breq_case", "check_breq"), "fsparse": ("fsparse_case", "check_fsparse"),
     },
     known_classes={},
     shard=150,
